@@ -244,9 +244,11 @@ class SymExec:
         sa = base.copy(); sa.guard = base.guard + (c,)
         self.state = sa
         self.block(s.body)
+        sa = self.state              # nested ifs may have replaced the state object
         sb = base.copy(); sb.guard = base.guard + (mk_not(c),)
         self.state = sb
         self.block(s.orelse)
+        sb = self.state
         if sa.dead and sb.dead:
             base.dead = True
             self.state = base
@@ -504,7 +506,11 @@ def show(t, depth=0):
     """compact rendering of a term for reports"""
     if not isinstance(t, tuple):
         return repr(t)
+    if not t:
+        return '()'
     k = t[0]
+    if not isinstance(k, str):
+        return '(' + ', '.join(show(x, depth + 1) for x in t) + ')'
     if depth > 12:
         return '...'
     s = lambda x: show(x, depth + 1)
@@ -548,22 +554,17 @@ def show(t, depth=0):
     return '<' + ' '.join(str(x) if not isinstance(x, tuple) else s(x) for x in t) + '>'
 
 def walk(t):
-    """all sub-terms, pre-order"""
-    yield t
-    if isinstance(t, tuple):
-        for x in t[1:]:
-            if isinstance(x, tuple):
-                if x and isinstance(x[0], str):
-                    yield from walk(x)
-                else:
-                    for y in x:
-                        if isinstance(y, tuple):
-                            if y and isinstance(y[0], str):
-                                yield from walk(y)
-                            else:
-                                for z in y:
-                                    if isinstance(z, tuple) and z and isinstance(z[0], str):
-                                        yield from walk(z)
+    """all sub-terms (tuples whose head is a string tag), pre-order"""
+    if not isinstance(t, tuple) or not t:
+        return
+    if isinstance(t[0], str):
+        yield t
+        rest = t[1:]
+    else:
+        rest = t
+    for x in rest:
+        if isinstance(x, tuple):
+            yield from walk(x)
 
 def flatten_or(t):
     """a | b | c  ->  [a, b, c]   (0 | x -> [x])"""
